@@ -9,6 +9,8 @@ import CijModel.Ops.C01
 import CijModel.Ops.C07
 import CijModel.Ops.C15
 import CijModel.Ops.C19
+import CijModel.Ops.C05
+import CijModel.Ops.C06
 open Lean Cij.Wire
 
 def handlers : List Handler := [
@@ -17,7 +19,9 @@ def handlers : List Handler := [
   Cij.Ops.C01.handle,
   Cij.Ops.C07.handle,
   Cij.Ops.C15.handle,
-  Cij.Ops.C19.handle
+  Cij.Ops.C19.handle,
+  Cij.Ops.C05.handle,
+  Cij.Ops.C06.handle
 ]
 
 def dispatch (line : String) : Json :=
